@@ -1440,9 +1440,10 @@ class ContactHandler(Messenger, dbus.service.Object):
                 if delta_t > 0:
                     self._modulate_tx_seg_size(delta_b, delta_t)
 
-        if transfer_id not in self._tx_map:
+        item = self._tx_map.get(transfer_id)
+        if item is None or item in self._tx_pend_start:
+            # Unknown to the peer: never allocated, or queued and not started
             raise RejectError(messages.RejectMsg.Reason.UNEXPECTED)
-        item = self._tx_map[transfer_id]
         item.ack_length = length
         if flags & messages.TransferSegment.Flag.END:
             if not self._do_send_ack_final:
@@ -1463,13 +1464,13 @@ class ContactHandler(Messenger, dbus.service.Object):
     def recv_xfer_refuse(self, transfer_id, reason):
         Messenger.recv_xfer_refuse(self, transfer_id, reason)
 
-        if transfer_id not in self._tx_map:
+        item = self._tx_map.get(transfer_id)
+        if item is None or item in self._tx_pend_start:
+            # Unknown to the peer: never allocated, or queued and not started
             raise RejectError(messages.RejectMsg.Reason.UNEXPECTED)
-        item = self._tx_map.pop(transfer_id)
+        self._tx_map.pop(transfer_id)
         self.send_bundle_finished(str(transfer_id), item.ack_length, 'refused with code %s' % reason)
         self._tx_pend_ack.discard(item)
-        if item in self._tx_pend_start:
-            self._tx_pend_start.remove(item)
 
         # interrupt in-progress
         if self._tx_tmp is not None and self._tx_tmp.transfer_id == transfer_id:
